@@ -152,7 +152,30 @@ pub mod writers {
         pub fn existing_log_files(&self, selector: &LogfileSelector) -> (r: Result<Vec<std::path::PathBuf>, FlexiLoggerError>)
             ensures r == fw_elf_result(selector)
         { unimplemented!() }
+        #[verifier::external_body]
+        pub fn reset(&self, flwb: &FileLogWriterBuilder) -> (r: Result<(), FlexiLoggerError>) ensures r == fw_reset_result(flwb) { unimplemented!() }
+        #[verifier::external_body]
+        pub fn config(&self) -> (r: Result<FileLogWriterConfig, FlexiLoggerError>) ensures r == fw_config_result() { unimplemented!() }
+        #[verifier::external_body]
+        pub fn reopen_outputfile(&self) -> (r: Result<(), FlexiLoggerError>) ensures r == fw_reopen_result(), fw_reopened() { unimplemented!() }
+        #[verifier::external_body]
+        pub fn rotate(&self) -> (r: Result<(), FlexiLoggerError>) ensures r == fw_rotate_result(), fw_rotated() { unimplemented!() }
     }
+    #[verifier::external_body]
+    pub struct FileLogWriterBuilder { _o: () }
+    #[verifier::external_body]
+    pub struct FileLogWriterConfig { _o: () }
+    /// result oracles and token facts of reset / config / reopen / rotate (C18, C08)
+    pub uninterp spec fn fw_reset_result(b: &FileLogWriterBuilder) -> Result<(), FlexiLoggerError>;
+    pub uninterp spec fn fw_config_result() -> Result<FileLogWriterConfig, FlexiLoggerError>;
+    pub uninterp spec fn fw_reopen_result() -> Result<(), FlexiLoggerError>;
+    pub uninterp spec fn fw_reopened() -> bool;
+    pub uninterp spec fn fw_rotate_result() -> Result<(), FlexiLoggerError>;
+    pub uninterp spec fn fw_rotated() -> bool;
+    pub uninterp spec fn ow_reopen_result(wid: int) -> Result<(), FlexiLoggerError>;
+    pub uninterp spec fn ow_reopened(wid: int) -> bool;
+    pub uninterp spec fn ow_rotate_result(wid: int) -> Result<(), FlexiLoggerError>;
+    pub uninterp spec fn ow_rotated(wid: int) -> bool;
     /// token facts (only the callee's `ensures` establishes them) and result oracles of flush / shutdown (C04)
     pub uninterp spec fn fw_flushed() -> bool;
     pub uninterp spec fn fw_flush_result() -> std::io::Result<()>;
@@ -161,7 +184,7 @@ pub mod writers {
     pub uninterp spec fn ow_flush_result(wid: int) -> std::io::Result<()>;
     pub uninterp spec fn ow_shut(wid: int) -> bool;
     pub struct LogfileSelector { _o: () }
-    pub enum FlexiLoggerError { Poison, Other }
+    pub enum FlexiLoggerError { Poison, NoFileLogger, Other(int) }
     /// oracle: the file writer's listing for a selector (unit `flw`)
     pub uninterp spec fn fw_elf_result(selector: &LogfileSelector) -> Result<Vec<std::path::PathBuf>, FlexiLoggerError>;
     /// SHIM for `trait LogWriter`
@@ -177,6 +200,10 @@ pub mod writers {
             ensures ow_flushed(self.wid()), r == ow_flush_result(self.wid());
         fn shutdown(&self)
             ensures ow_shut(self.wid());
+        fn reopen_output(&self) -> (r: Result<(), FlexiLoggerError>)
+            ensures r == ow_reopen_result(self.wid()), ow_reopened(self.wid());
+        fn rotate(&self) -> (r: Result<(), FlexiLoggerError>)
+            ensures r == ow_rotate_result(self.wid()), ow_rotated(self.wid());
     }
 }
 pub mod multi_writer {
@@ -242,10 +269,42 @@ pub mod multi_writer {
     }
     impl MultiWriter {
         pub closed spec fn has_file_writer(&self) -> bool { self.o_file_writer is Some }
+        pub closed spec fn has_other_writer(&self) -> bool { self.o_other_writer is Some }
+        pub closed spec fn the_other_id(&self) -> int { self.o_other_writer->Some_0.wid() }
     //@ fn src/primary_writer/multi_writer.rs impl MultiWriter / fn existing_log_files
     //@   ret r
     //@   props C16
     //@   ens[MultiWriter::existing_log_files.post] if self.has_file_writer() { r == fw_elf_result(selector) } else { r is Ok && r->Ok_0@.len() == 0 }
+    }
+    impl MultiWriter {
+        /// "all of them will be attempted; only the first error will be reported"
+        pub open spec fn first_error(r1: Result<(), FlexiLoggerError>, r2: Result<(), FlexiLoggerError>) -> Result<(), FlexiLoggerError> { if r1 is Err { r1 } else { r2 } }
+        /// equality of two `Result<(), E>` (stated by cases: the verifier does not identify two values of type `()` by itself)
+        pub open spec fn same_outcome(a: Result<(), FlexiLoggerError>, b: Result<(), FlexiLoggerError>) -> bool { (a is Ok <==> b is Ok) && (a is Err ==> a->Err_0 == b->Err_0) }
+    //@ fn src/primary_writer/multi_writer.rs impl MultiWriter / fn reset_file_log_writer
+    //@   ret r
+    //@   props C18
+    //@   closure ~flw.reset ## sig |flw: &Box<FileLogWriter>| -> (r: Result<(), FlexiLoggerError>)
+    //@   closure ~flw.reset ## ens r == fw_reset_result(flwb)
+    //@   ens[MultiWriter::reset_file_log_writer.post] if self.has_file_writer() { r == fw_reset_result(flwb) } else { r == Err::<(), FlexiLoggerError>(FlexiLoggerError::NoFileLogger) }
+    //@ fn src/primary_writer/multi_writer.rs impl MultiWriter / fn flw_config
+    //@   ret r
+    //@   props C18
+    //@   closure ~flw.config ## sig |flw: &Box<FileLogWriter>| -> (r: Result<FileLogWriterConfig, FlexiLoggerError>)
+    //@   closure ~flw.config ## ens r == fw_config_result()
+    //@   ens[MultiWriter::flw_config.post] if self.has_file_writer() { r == fw_config_result() } else { r == Err::<FileLogWriterConfig, FlexiLoggerError>(FlexiLoggerError::NoFileLogger) }
+    //@ fn src/primary_writer/multi_writer.rs impl MultiWriter / fn reopen_output
+    //@   ret r
+    //@   props C18
+    //@   ens[MultiWriter::reopen_output.post.file] self.has_file_writer() ==> fw_reopened()
+    //@   ens[MultiWriter::reopen_output.post.other] self.has_other_writer() ==> ow_reopened(self.the_other_id())
+    //@   ens[MultiWriter::reopen_output.post.result] MultiWriter::same_outcome(r, MultiWriter::first_error(if self.has_file_writer() { fw_reopen_result() } else { Ok(()) }, if self.has_other_writer() { ow_reopen_result(self.the_other_id()) } else { Ok(()) }))
+    //@ fn src/primary_writer/multi_writer.rs impl MultiWriter / fn trigger_rotation
+    //@   ret r
+    //@   props C08
+    //@   ens[MultiWriter::trigger_rotation.post.file] self.has_file_writer() ==> fw_rotated()
+    //@   ens[MultiWriter::trigger_rotation.post.other] self.has_other_writer() ==> ow_rotated(self.the_other_id())
+    //@   ens[MultiWriter::trigger_rotation.post.result] MultiWriter::same_outcome(r, MultiWriter::first_error(if self.has_file_writer() { fw_rotate_result() } else { Ok(()) }, if self.has_other_writer() { ow_rotate_result(self.the_other_id()) } else { Ok(()) }))
     }
     // R9: methods of `impl LogWriter for MultiWriter` emitted as inherent methods
     impl MultiWriter {
